@@ -15,7 +15,8 @@ RULE = ("explicit-state BFS over histories of definitions (0-3 parameters in ide
 TRIGGERS = [":keyword", ":param **kwargs:", "KW!"]
 STRIPS = ["", "^_[a-zA-Z]*_", "^_", "x", r"\W+", "^[^_]*_"]   # the last two can match across a separator if parameters were joined
 DOCS = [None, ["Plain text only."], ["Takes :keyword foo: a thing."], ["Doc.", ":param **kwargs: more"],
-        ["Shout KW! here"], ["near miss :Keyword and kw! and :param *kwargs:"]]
+        ["Shout KW! here"], ["near miss :Keyword and kw! and :param *kwargs:"],
+        ["The :keywords: follow, KW!x too, and :param **kwargs:x"]]     # the trigger directly followed by a word character
 PARAMS = [[], ["_pfx_name"], ['"q  p\tt"', "${ref}", "[[br x]]"], ["x_arg", "_x", "plain"]]   # two spaces and a tab inside quotes
 
 
@@ -38,6 +39,8 @@ def enabled(events, maxnest):
         # field-for-field equal definitions (the 'define it one way or the other' idiom)
         out += [{"k": "function", "doc": 1, "name": "twin_fn", "doctext": ["Twin."], "params": ["t"]},
                 {"k": "macro", "doc": 0, "name": "twin_mac", "params": ["t"]}]
+        # a keyword-taking macro/function with a fixed name, so that later bodies can invoke it
+        out += [{"k": "macro", "doc": 1, "name": "kw_mac", "doctext": ["Takes :keyword foo: a thing."], "params": ["t"]}]
         out += [{"k": "if", "doc": 0}, {"k": "foreach", "doc": 0}, {"k": "cpp_class", "doc": 1},
                 {"k": "ct_add_test", "doc": 0}]
         if inner == "cpp_class":
@@ -45,6 +48,9 @@ def enabled(events, maxnest):
         if inner in ("ct_add_test", "ct_add_section"):
             out += [{"k": "ct_add_section", "doc": 0}]
     out += [{"k": "cmake_parse_arguments"}, {"k": "set", "doc": 0}]
+    # invocations of the module's own definitions (by their fixed names) are ordinary commands
+    names = {ev.get("name") for ev in events}
+    out += [{"k": "generic", "doc": 0, "cmd": n, "args": ["1"]} for n in ("kw_mac", "twin_fn") if n in names]
     if st:
         out.append({"k": "close"})
         if st[-1][0] in ("function", "macro"):
